@@ -275,4 +275,92 @@ Proof.
   rewrite Eu. cbn [sp_bind]. f_equal. ring.
 Qed.
 
+
+(** _build_integrals on a clamped general space *)
+Theorem ip_integrals_clamped knots d : ip_clamped knots d -> ip_space_ok F K knots d false false = true ->
+  ip_integrals F K knots d false false
+  = SpOk (map (fun i => (kn knots (i + d + 1) - kn knots i) * (1 / sp_ofnat F K (S d))) (seq 0 (length knots - d - 1))).
+Proof.
+  intros Hc Hok. unfold ip_integrals. cbv zeta. rewrite Hok. cbn [negb].
+  change (kn knots 0 :: knots ++ [last knots 0]) with (ip_kx knots).
+  assert (E : (ip_ncells F K knots d false + d = length knots - d - 1)%nat).
+  { unfold ip_ncells. destruct Hc as [_ [Hlen _]]. lia. }
+  rewrite E. apply sp_mapM_ok. intros i Hi. apply in_seq in Hi. apply ip_integral_clamped; [exact Hc|lia].
+Qed.
+
+(* telescoping *)
+Lemma ip_sumn_shift1 (f : nat -> F) p n : sumn p (fun j => f (S n + j)%nat) + f n = sumn p (fun j => f (n + j)%nat) + f (n + p)%nat.
+Proof.
+  induction p as [|p IH]; cbn [Sums.sumn]; [rewrite Nat.add_0_r; ring|].
+  replace (f (n + S p)%nat) with (f (S n + p)%nat) by (f_equal; lia).
+  transitivity (sumn p (fun j => f (S n + j)%nat) + f n + f (S n + p)%nat); [ring|]. rewrite IH. ring.
+Qed.
+Lemma ip_sumn_sub p (g h : nat -> F) : sumn p (fun j => g j - h j) = sumn p g - sumn p h.
+Proof. induction p as [|q IHq]; cbn [Sums.sumn]; [ring|]. rewrite IHq. ring. Qed.
+Lemma ip_telescope (f : nat -> F) p n :
+  sumn n (fun j => f (j + p)%nat - f j) = sumn p (fun j => f (n + j)%nat - f j).
+Proof.
+  induction n as [|n IH]; cbn [Sums.sumn].
+  - rewrite (ip_sumn_ext F K p _ (fun _ => 0)) by (intros; cbn [Nat.add]; ring). rewrite (ip_sumn_zero F K HK). reflexivity.
+  - rewrite IH.
+    rewrite !ip_sumn_sub. pose proof (ip_sumn_shift1 f p n) as S1.
+    replace (f (n + p)%nat) with (sumn p (fun j => f (S n + j)%nat) + f n - sumn p (fun j => f (n + j)%nat)) by (rewrite S1; ring).
+    ring.
+Qed.
+
+Lemma ip_ofnat_S_ne0 d : sp_ofnat F K (S d) <> 0.
+Proof.
+  intros E. apply (sp_1_neq_0 F K HK). apply (spl_le_antisym K HK); [|apply (sp_0_le_1 F K HK)].
+  rewrite <- E. rewrite (sp_ofnat_S F K). replace 1 with (0 + 1) at 1 by ring.
+  apply (spl_add_le K HK). apply (sp_ofnat_nonneg F K HK).
+Qed.
+Lemma ip_sumn_const n c : sumn n (fun _ => c) = sp_ofnat F K n * c.
+Proof. induction n as [|n IH]; cbn [Sums.sumn]; [unfold sp_ofnat; cbn; ring|]. rewrite IH, (sp_ofnat_S F K). ring. Qed.
+
+(** the stored integrals of a clamped space sum to the length of the domain *)
+Theorem ip_integrals_clamped_sum knots d :
+  ip_clamped knots d ->
+  sumn (length knots - d - 1) (fun i => (kn knots (i + d + 1) - kn knots i) * (1 / sp_ofnat F K (S d)))
+  = kn knots (length knots - 1 - d) - kn knots d.
+Proof.
+  intros [Hs [Hlen [HL [HR Hst]]]].
+  rewrite (ip_sumn_ext F K _ _ (fun i => (1 / sp_ofnat F K (S d)) * (kn knots (i + S d) - kn knots i))).
+  2:{ intros i _. replace (i + S d)%nat with (i + d + 1)%nat by lia. ring. }
+  rewrite (ip_sumn_scale F K HK). rewrite (ip_telescope (kn knots) (S d)).
+  rewrite (ip_sumn_ext F K (S d) _ (fun _ => kn knots (length knots - 1 - d) - kn knots d)).
+  2:{ intros j Hj. rewrite (HR (length knots - d - 1 + j)%nat) by lia. rewrite (HL j) by lia. reflexivity. }
+  rewrite ip_sumn_const. field. apply ip_ofnat_S_ne0.
+Qed.
+
+(** hence (with [ip_weights_sum] and the partition of unity) the quadrature weights of a clamped general space sum to
+    the length of the domain *)
+Theorem ip_weights_sum_clamped knots d xs w :
+  ip_clamped knots d -> ip_quadrature F K knots d false false xs = SpOk w ->
+  (forall i, (i < ip_nbasis F K knots d false false)%nat ->
+     kn knots d <= nth i xs 0 /\ nth i xs 0 <= kn knots (length knots - 1 - d)) ->
+  ip_sum F K (ip_nbasis F K knots d false false) (fun i => nth i w 0) = kn knots (length knots - 1 - d) - kn knots d.
+Proof.
+  intros Hc Hq Hdom. pose proof Hc as [Hs [Hlen [HL [HR Hst]]]].
+  unfold ip_quadrature in Hq.
+  destruct (ip_integrals F K knots d false false) as [Il| | | |] eqn:EI; cbn [sp_bind] in Hq; try discriminate.
+  assert (Hok : ip_space_ok F K knots d false false = true).
+  { unfold ip_integrals in EI. cbv zeta in EI. destruct (ip_space_ok F K knots d false false); [reflexivity|discriminate]. }
+  rewrite (ip_integrals_clamped knots d Hc Hok) in EI. injection EI as EI.
+  destruct (ip_quad_from_spec F K HK _ _ _ _ _ _ _ Hq) as [_ [A [EA _]]].
+  set (nb := ip_nbasis F K knots d false false) in *.
+  assert (Enb : nb = (length knots - d - 1)%nat) by (unfold nb, ip_nbasis, ip_ncells; lia).
+  assert (Hxs : length xs = nb).
+  { unfold ip_quad_from in Hq. cbv zeta in Hq. fold nb in Hq.
+    destruct (Nat.eqb_spec (length xs) nb) as [E|]; [exact E|]. rewrite andb_false_r in Hq. discriminate. }
+  assert (Hrows : ip_rows_sum_one F K nb A).
+  { apply (ip_rows_sum_one_nu F K HK knots d false xs A EA Hxs Hs Hlen).
+    - apply Hst. lia.
+    - replace (length knots - 1 - d)%nat with (S (length knots - d - 2)) by lia. apply Hst. lia.
+    - exact Hdom. }
+  pose proof (ip_weights_sum F K HK knots d false false xs Il w A Hq EA Hrows) as W. cbv zeta in W. fold nb in W. rewrite W.
+  rewrite <- (ip_integrals_clamped_sum knots d Hc). rewrite Enb. unfold ip_sum. apply (ip_sumn_ext F K). intros j Hj.
+  unfold ip_quad_rhs. rewrite ip_vtab_get by exact Hj. rewrite <- EI.
+  rewrite (ip_nth_map_seq (fun i => (kn knots (i + d + 1) - kn knots i) * (1 / sp_ofnat F K (S d)))) by exact Hj. reflexivity.
+Qed.
+
 End QuadTheory.
